@@ -68,13 +68,13 @@ theorem restricted_fields_have_level (lvl : Nat) (fs : List Field) :
   restrict_level lvl fs
 
 /-- an array without references is read back bit for bit -/
-theorem array_bit_identical (h : Heap) (file : File) (o : Nat) (ob : Obj) (p : Path) (wm : WMemo)
+theorem array_bit_identical (h : Heap) (u : Option (List String)) (l : Nat) (file : File) (o : Nat) (ob : Obj) (p : Path) (wm : WMemo)
     (g : Grp) (wm' : WMemo) (fw fr : Nat) (s : RSt)
     (hob : h[o]? = some ob) (hk : attrName ob.kind = none)
-    (hw : writeArr h (fw + 1) o p wm = .ok (g, wm')) :
+    (hw : writeArr h u l (fw + 1) o p wm = .ok (g, wm')) :
     wm' = wm ∧ g.attrs.fieldname = p ∧
     ∃ s', readArr file (fr + 1) g s = .ok (s.heap.length, s') ∧ s'.heap = s.heap ++ [ob.strip] :=
-  readArr_writeArr h file o ob p wm g wm' fw fr s hob hk hw
+  readArr_writeArr h u l file o ob p wm g wm' fw fr s hob hk hw
 
 /-- units: `None ↔ ""`, a real unit tuple as it is -/
 theorem units_identical (u : Option (List String)) (hu : ∀ us, u = some us → us.any (fun x => !x.isEmpty) = true) :
